@@ -203,6 +203,12 @@ func (fr *frame) call(v *ssa.Call, cc *ssa.CallCommon, st *State, R string, b *s
 		fc.abstract("effect-free by allow-list: %s", pkgOfName(name))
 	case callDynamic:
 		resName = declareResults()
+		if n, ok := cc.Value.Type().(*types.Named); ok && n.Obj().Pkg() != nil && n.Obj().Pkg().Path() == "context" && n.Obj().Name() == "CancelFunc" {
+			// calling a context.CancelFunc only cancels that context: ghost cancelled[fn] = true, no heap effect
+			fc.compDecl("G:cancelled", "(Array Int Bool)")
+			st.comp["G:cancelled"] = fmt.Sprintf("(store %s %s true)", fc.lookup(st, "G:cancelled"), fr.val(cc.Value))
+			return
+		}
 		if fc.pureMode {
 			// pure context: function values are applied as mathematical functions
 			var as, ss []string
@@ -740,7 +746,16 @@ func (fr *frame) applyContract(ctr *FuncContract, callee *ssa.Function, cc *ssa.
 	fr.resultAssumeT(resName, resT, st)
 	env := fr.calleeEnv(ctr, callee, cc, argTerms, argTypes, resName, resT, pre, st)
 	for _, c := range ctr.Ensures {
+		// clauses about the callee's own locals (defined(x) ==> ..., or naming a local) are internal: callers skip them
+		if strings.Contains(c.Text, "defined(") || strings.Contains(c.Text, "afterloop(") {
+			continue
+		}
+		nErr := len(fc.errs)
 		g := env.trAssume(c.E)
+		if len(fc.errs) > nErr {
+			fc.errs = fc.errs[:nErr]
+			continue
+		}
 		def := ""
 		if resName != "" {
 			def = resName
